@@ -1,6 +1,7 @@
 package checks
 
 import (
+	"path/filepath"
 	"encoding/json"
 	"fmt"
 	"os"
@@ -25,6 +26,7 @@ type c05Spec struct {
 	Cols   int    `json:"cols"` // 0 = date only, 1 = every supported variable kind
 	Rot    int    `json:"rot"`  // 0 = no crop, 1..3 rotation variants
 	Text   bool   `json:"text,omitempty"` // numerically unstable N transport: the text-valued status variables get filled
+	Reuse  bool   `json:"reuse,omitempty"` // files on disk (the library's own writer) in a result folder that holds a longer earlier run
 }
 
 var c05Starts = []string{"2003-12-30", "2003-12-31", "2004-01-01", "2004-02-27", "2004-02-28", "2004-02-29", "2004-03-01", "2003-02-28", "2003-03-01", "2004-06-15", "2001-09-29"}
@@ -66,6 +68,14 @@ func c05Specs(tier string, seed int) []c05Spec {
 	for style := 0; style < 2; style++ {
 		for _, k := range []int{1, 2} {
 			out = append(out, c05Spec{Start: "2001-04-10", Len: 14, Annual: "end-1", K: k, Style: style, Fmt: "DateDElong", Cols: 1, Text: true})
+		}
+	}
+	// the library's own file writer, result folder reused after a longer run of the same plot
+	for _, l := range []int{3, 30, 200} {
+		for style := 0; style < 2; style++ {
+			for _, k := range []int{1, 7} {
+				out = append(out, c05Spec{Start: "2003-12-30", Len: l, Annual: "0101", K: k, Style: style, Fmt: "DateDElong", Cols: k % 2, Reuse: true})
+			}
 		}
 	}
 	// rotations: 1-3 harvested crops, end date before / on / after each harvest date
@@ -218,7 +228,30 @@ func c05Run(raw json.RawMessage, c *mc.Ctx) {
 		}
 	}
 	p.Write(root)
-	res := proj.Run(root, p.Args(root), nil)
+	var res *proj.RunResult
+	if sp.Reuse {
+		// first a longer run with daily output into the same result folder, then the run under test
+		resDir := filepath.Join(root, "out", p.ID+"_"+p.Plot)
+		short := map[string]string{"EndDate": p.Config["EndDate"], "OutputIntervall": p.Config["OutputIntervall"]}
+		p.Config["EndDate"], p.Config["OutputIntervall"] = proj.DateStr(sp.Fmt, end.AddDate(0, 0, 120)), "1"
+		if ndays < sp.Len+140 {
+			p.Weather = append(p.Weather, make([]proj.Day, sp.Len+140-ndays)...)
+			for i := range p.Weather {
+				p.Weather[i] = sigma["mild"]
+			}
+		}
+		p.Write(root)
+		first := proj.RunDisk(root, p.Args(root), resDir)
+		c.Trace(1)
+		if !first.Success {
+			mc.HarnessError("C05 reuse: the preceding longer run failed: %s %s", first.Err, first.Panic)
+		}
+		p.Config["EndDate"], p.Config["OutputIntervall"] = short["EndDate"], short["OutputIntervall"]
+		p.Write(root)
+		res = proj.RunDisk(root, p.Args(root), resDir)
+	} else {
+		res = proj.Run(root, p.Args(root), nil)
+	}
 	c.Trace(1)
 	label := fmt.Sprintf("start %s end %s annual %s k=%d style=%d %s", sp.Start, end.Format("2006-01-02"), ann, sp.K, sp.Style, sp.Fmt)
 	if !res.Success || res.Panic != "" {
